@@ -10,6 +10,7 @@ from ..viol import Violation, require
 ID = 'C12'
 LEVEL = 'exploration'
 RULE = (
+    'Receiving managers also with dynamic reordering enabled at thresholds 1/2/4 (the switch must still be on afterwards); dumps from managers without variables. '
     'E: n<=3, for every (source order, target order) pair all 2^(2^n) '
     'functions are dumped as one list / one dict of roots and loaded back: '
     'pickle via dd.bdd (levels=False; levels=True where orders agree, '
